@@ -78,6 +78,33 @@ TARGET_ARGS = {"model": ["generate", "model"], "server": ["generate", "server", 
 MODE_ARGS = {"minimal": [], "full": ["--with-flatten=full"], "expand": ["--with-expand"]}
 
 
+def streams_spec():
+    model = {"$ref": "#/definitions/item"}
+    stream, filet = {"type": "string", "format": "binary"}, {"type": "file"}
+    R = lambda desc, sch=None: dict({"description": desc}, **({"schema": sch} if sch else {}))
+    ops = {
+        "jsonOkStreamConflict": {"200": R("ok", model), "409": R("conflict", stream)},
+        "streamOk": {"200": R("ok", filet)},
+        "streamDefaultOnly": {"default": R("any", stream)},
+        "jsonOkStreamDefault": {"200": R("ok", model), "default": R("err", filet)},
+        "streamRedirectAndOk": {"200": R("ok", stream), "302": R("moved", stream)},
+        "streamNotFoundOnly": {"204": R("none"), "404": R("missing", filet)},
+        "jsonErrStreamOk": {"200": R("ok", stream), "400": R("bad", model), "default": R("err", model)},
+    }
+    paths = {}
+    for i, (oid, resps) in enumerate(sorted(ops.items())):
+        paths["/s%d/{id}" % i] = {"get": {"operationId": oid, "tags": ["streams"], "produces": ["application/octet-stream", "application/json"],
+                                           "parameters": [{"name": "id", "in": "path", "required": True, "type": "string"}], "responses": resps}}
+    paths["/upload"] = {"post": {"operationId": "uploadStream", "consumes": ["application/octet-stream"], "produces": ["application/json"],
+                                 "parameters": [{"name": "body", "in": "body", "required": True, "schema": stream}],
+                                 "responses": {"201": R("created", model), "413": R("too large", stream)}},
+                        "put": {"operationId": "uploadForm", "consumes": ["multipart/form-data"], "produces": ["application/json"],
+                                "parameters": [{"name": "file", "in": "formData", "type": "file", "required": True}, {"name": "note", "in": "formData", "type": "string"}],
+                                "responses": {"200": R("ok", model), "default": R("err", model)}}}
+    return {"swagger": "2.0", "info": {"title": "streams", "version": "1"}, "consumes": ["application/json"], "produces": ["application/json"],
+            "paths": paths, "definitions": {"item": {"type": "object", "properties": {"name": {"type": "string"}}}}}
+
+
 def norm_errs(txt):
     """one (file, message) per generated file the compiler complains about: its first error, normalised"""
     out = {}
@@ -111,7 +138,7 @@ def check(run, replay=None):
         pairs = [c for c in cases if c["kind"] == "pair" and c["target"] in ("server", "model")]
         cases = names + other_names + keep_docs + pairs
     # documents of the other families
-    docs = {"rich": text_family.base_spec(), "nested": text_family.nested_spec(), "wide": det_family.wide_spec()}
+    docs = {"rich": text_family.base_spec(), "nested": text_family.nested_spec(), "wide": det_family.wide_spec(), "streams": streams_spec()}
     docfiles = {}
     for k, d in docs.items():
         docfiles[k] = run.path("doc-%s.json" % k); json.dump(d, open(docfiles[k], "w"))
